@@ -1,4 +1,5 @@
 import PngVerif.Proofs.ReaderResume
+import PngVerif.Proofs.ReaderStart
 import PngVerif.Proofs.ReaderToy
 /-!
 # C05 — Truncation gives a resumable end-of-input error; resuming completes identically
@@ -17,13 +18,22 @@ What is proved: (1) end of input changes nothing; (2) `update` on a longer buffe
 `update`-level core); (3) every loop of `ReadDecoder`/`Reader` is resumable; (4) the public calls
 `read_row`, `next_row`/`next_interlaced_row`, `next_frame_info`, `finish`, `read_header_info` are
 resumable, and the part of `read_row`, `next_frame_info`, `finish` that runs before the first
-`decode_next` is idempotent under retry.  NOT proved here: resumability of `next_frame` as a whole
-call.  Its loops are covered by (3), but a row delivered *before* the input ran out can leave the
-run on the longer input ahead of the retried run (its `decode_next` call took more image data at
-once), and the two unfiltering buffers are then compacted at different times: the final readers are
-equal only up to the abstraction `UB.abs` (previous row, pending bytes), not as states, so the
-statement needs a simulation relation instead of the state equality used here.  For the same reason
-the theorems compare ONE retried call with the same call on the grown input, from the same state.
+`decode_next` is idempotent under retry; (5) `next_frame` and whole runs.  For `next_frame` a row
+delivered *before* the input ran out can leave the run on the longer input ahead of the retried run
+(its `decode_next` call took more image data at once), and the two unfiltering buffers are then
+compacted at different times: the final readers are equal only up to `Sim` — all fields equal except
+the unfiltering buffer, which holds the same previous row and pending bytes (`UB.abs`) while a row is
+still to be delivered.  `Sim` is preserved by every operation, with equal results (`sim_step`,
+`sim_run`); `next_frame_resumable`; every call is monotone in the visible prefix (`call_monotone`);
+and `C05_resume`: a caller that retries every call that ran out of input, for any growth schedule, gets
+the results of the run that saw the whole input from the start.  Two more hypotheses appear in (5):
+`TCfg.Stable` (the output type depends on the IHDR fields and `tRNS` only — the documented size of the
+frame buffer is compared across calls), and for whole runs that no call of the run on the whole input
+fails (a fatal error can surface one call later in the truncated run: `decode_next` reports it instead
+of the image data it decoded in the same call, while the truncated run had already delivered that
+data).  `read_info(self)` consumes the `Decoder`, so a failed `read_info` cannot be retried: the runs
+start from a `Reader` (`C05_resume`), or from a `Decoder` whose `read_info` succeeds on the visible prefix
+(`C05_resume_from_start`; `read_info_on_longer_input`).
 
 "The same outcome" is `ResumeEq` / `OpResumeEq`: the two runs return the same result AND the same
 reader state — or both fail with the same fatal error (then the poisoned states may differ in how
@@ -180,6 +190,103 @@ theorem retry_prelude_finish (cfg : Cfg) (t : TCfg) (r r1 : R) (e : Reader.Res) 
     ({ r1 with remaining := 0, ub := UB.new, sub := { r1.sub with cur := none, caf := true } } : R) = r1 :=
   finish_retry cfg r r1 e hI hfin h he
 
+/-! ## (5) `next_frame` and whole runs: equality up to the layout of the unfiltering buffer -/
+
+/-- **`sim_step`**: every operation of the model, from `Sim`-related readers (the first reachable: `RInv`),
+    returns the same result and leaves `Sim`-related readers -/
+theorem sim_step (cfg : Cfg) (hI : cfg.InflateOk) (t : TCfg) (ht : t.Ok) (a b : R) (hR : RInv t a) (h : Sim a b) (op : Op) :
+    (step cfg t a op).2 = (step cfg t b op).2 ∧ Sim (step cfg t a op).1 (step cfg t b op).1 :=
+  step_sim cfg hI ht hR h op
+
+/-- **`sim_run`**: whole runs from `Sim`-related readers return the same list of results -/
+theorem sim_run (cfg : Cfg) (hI : cfg.InflateOk) (t : TCfg) (ht : t.Ok) (ops : List Op) (a b : R) (hR : RInv t a)
+    (h : Sim a b) (hops : OpsOk a.isReader ops) :
+    (run cfg t a ops).2 = (run cfg t b ops).2 ∧ Sim (run cfg t a ops).1 (run cfg t b ops).1 :=
+  run_sim cfg hI ht ops a b hR h hops
+
+/-- **`next_frame_resumable`**: a `next_frame` that ran out of input (the model keeps the caller's
+    buffer, rows delivered so far included, in `pendingBuf`), called again with that buffer after the
+    input grew, returns what `next_frame` returns on the grown input from the state before the failed
+    call — the same `OutputInfo` and frame, or `UnexpectedEof` again — and leaves a `Sim`-related reader;
+    provided the call on the grown input does not fail fatally -/
+theorem next_frame_resumable (cfg : Cfg) (hI : cfg.InflateOk) (t : TCfg) (ht : t.Ok) (hst : t.Stable) (r r1 : R)
+    (p : UInt8) (w : String) (v : Nat) (hInv : Inv t r) (hv : r.visible ≤ v)
+    (h : nextFrameOp cfg t r p = (r1, .err .eof w))
+    (hy : (nextFrameOp cfg t (growTo r v) p).2.isFatal = false) :
+    (nextFrameOp cfg t (growTo r1 v) p).2 = (nextFrameOp cfg t (growTo r v) p).2 ∧
+      Sim (nextFrameOp cfg t (growTo r1 v) p).1 (nextFrameOp cfg t (growTo r v) p).1 :=
+  nextFrameOp_resumable cfg hI ht hst r r1 p w v hInv hv h hy
+
+/-- **`call_resumable`**: the same for every call of a `Reader` (`next_frame`, `next_row`, `read_row`,
+    `next_frame_info`, `finish`) as an operation of the model -/
+theorem call_resumable (cfg : Cfg) (hI : cfg.InflateOk) (t : TCfg) (ht : t.Ok) (hst : t.Stable) (r r1 : R) (op : Op)
+    (w : String) (v : Nat) (hInv : Inv t r) (hr : r.isReader = true) (hd : r.dead = false) (hop : op.isCall = true)
+    (hv : r.visible ≤ v) (h : step cfg t r op = (r1, .err .eof w))
+    (hy : (step cfg t (growTo r v) op).2.isFatal = false) :
+    (step cfg t (growTo r1 v) op).2 = (step cfg t (growTo r v) op).2 ∧
+      Sim (step cfg t (growTo r1 v) op).1 (step cfg t (growTo r v) op).1 :=
+  step_resumable cfg hI ht hst r r1 op w v hInv hr hd hop hv h hy
+
+/-- **`call_monotone`**: `A` sees `v` bytes; `B` sees `L ≥ v` bytes and is `A` after some more
+    `decode_image_data` calls (`LagSome`; in particular `B = growTo A L`).  If a call succeeds from `B`,
+    then from `A` it runs out of input or returns the same and keeps the readers so related; with
+    `v = L` it does not run out of input -/
+theorem call_monotone (cfg : Cfg) (hI : cfg.InflateOk) (t : TCfg) (ht : t.Ok) (v L : Nat) (A B : R)
+    (hl : LagSome cfg v L A B) (hInv : Inv t A) (hr : A.isReader = true) (hd : A.dead = false) (op : Op)
+    (hop : op.isCall = true) (hy : (step cfg t B op).2.isGood = true) :
+    (step cfg t A op).2.isFatal = false ∧
+    ((step cfg t A op).2.isEof = false → (step cfg t A op).2 = (step cfg t B op).2 ∧
+      LagSome cfg v L (step cfg t A op).1 (step cfg t B op).1) ∧
+    (v = L → (step cfg t A op).2.isEof = false) :=
+  step_mono cfg hI ht hl hInv hr hd op hop hy
+
+/-- **`C05_resume`**: a `Reader` `r0` that sees a prefix of the input; `L` bytes exist in all.  A caller
+    makes the calls `ops`; whenever a call runs out of input it waits for the next bytes of an
+    arbitrary growth schedule and makes the same call again (`resumeRun`).  If none of the calls fails
+    on the reader that sees all `L` bytes from the start, the results of the retrying caller other than
+    `UnexpectedEof` are the first results of that run — all of them, in the same order, with the same
+    rows and frames, if the schedule delivers all `L` bytes -/
+theorem C05_resume (cfg : Cfg) (hI : cfg.InflateOk) (t : TCfg) (ht : t.Ok) (hst : t.Stable) (r0 : R) (hInv : Inv t r0)
+    (hr : r0.isReader = true) (hd : r0.dead = false) (L : Nat) (hL : r0.visible ≤ L) (ops : List Op)
+    (hc : ∀ op ∈ ops, op.isCall = true) (sched : List Nat)
+    (hg : ∀ x ∈ (run cfg t (growTo r0 L) ops).2, x.isGood = true) :
+    ∃ zs, (run cfg t (growTo r0 L) ops).2 = resumeRun cfg t L sched ops r0 ++ zs ∧
+      (L ≤ r0.visible + sched.sum → zs = []) := by
+  apply resumeRun_spec cfg hI ht hst L sched ops r0 (growTo r0 L) ?_ hc hg
+  cases ops with
+  | nil => exact hL
+  | cons op rest => exact Mid.start hInv hr hd ⟨0, rfl, hL, Sim.refl _⟩ op
+
+/-- … in particular, with a schedule that delivers everything, exactly the results of that run -/
+theorem C05_resume_complete (cfg : Cfg) (hI : cfg.InflateOk) (t : TCfg) (ht : t.Ok) (hst : t.Stable) (r0 : R)
+    (hInv : Inv t r0) (hr : r0.isReader = true) (hd : r0.dead = false) (L : Nat) (hL : r0.visible ≤ L) (ops : List Op)
+    (hc : ∀ op ∈ ops, op.isCall = true) (sched : List Nat) (hs : L ≤ r0.visible + sched.sum)
+    (hg : ∀ x ∈ (run cfg t (growTo r0 L) ops).2, x.isGood = true) :
+    resumeRun cfg t L sched ops r0 = (run cfg t (growTo r0 L) ops).2 := by
+  obtain ⟨zs, h1, h2⟩ := C05_resume cfg hI t ht hst r0 hInv hr hd L hL ops hc sched hg
+  rw [h1, h2 hs, List.append_nil]
+
+/-- **`read_info_on_longer_input`**: a `read_info` that succeeded on the visible prefix succeeds on every
+    longer prefix, with the same `Reader` (only more is visible) -/
+theorem read_info_on_longer_input (cfg : Cfg) (hI : cfg.InflateOk) (t : TCfg) (a r0 : R) (L : Nat) (hP : PreInv a)
+    (hv : a.visible ≤ L) (h : readInfo cfg t a = (r0, .header)) :
+    readInfo cfg t (growTo a L) = (growTo r0 L, .header) :=
+  readInfo_stable cfg hI t a r0 L hP hv h
+
+/-- **`C05_resume_from_start`**: a `Decoder` `a` (`PreInv`: in particular a new one, `rinv_init`) that sees a
+    prefix of the input on which `read_info` succeeds; the caller then makes the calls `ops`, retrying
+    every call that runs out of input (`resumeRun`).  If no call of the run `read_info, ops` on the
+    whole input (`L` bytes, all visible from the start) fails, the retrying caller's results other than
+    `UnexpectedEof` are the first results of that run, and all of them if the schedule delivers
+    everything -/
+theorem C05_resume_from_start (cfg : Cfg) (hI : cfg.InflateOk) (t : TCfg) (ht : t.Ok) (hst : t.Stable) (a r0 : R)
+    (hP : PreInv a) (hr : a.isReader = false) (hd : a.dead = false) (L : Nat) (hv : a.visible ≤ L)
+    (h : step cfg t a .readInfo = (r0, .header)) (ops : List Op) (hc : ∀ op ∈ ops, op.isCall = true) (sched : List Nat)
+    (hg : ∀ x ∈ (run cfg t (growTo a L) (.readInfo :: ops)).2, x.isGood = true) :
+    ∃ zs, (run cfg t (growTo a L) (.readInfo :: ops)).2 = .header :: (resumeRun cfg t L sched ops r0 ++ zs) ∧
+      (L ≤ a.visible + sched.sum → zs = []) :=
+  resumeRun_from_start cfg hI ht hst a r0 hP hr hd L hv h ops hc sched hg
+
 /-! ## Non-vacuity -/
 
 open Png.Reader.Toy Png.Framing.Toy
@@ -218,5 +325,49 @@ example : (run toyCfg idT (a0 99)
     [1, 10, 5, 10, 5, 10, 5, 201, 10, 5, 4, 201, 5] := by decide +kernel
 example : (run toyCfg idT (a0 apng.length) [.readInfo, .nextRow, .nextRow, .nextFrameInfo, .nextRow, .finish]).2.map code =
     [1, 201, 3, 4, 201, 5] := by decide +kernel
+
+/-! ### (5) -/
+
+/-- the contract `TCfg.Stable` is satisfiable (the identity transformation) -/
+example : idT.Stable := by
+  intro i j f hc _
+  simp only [Info.core, Prod.mk.injEq] at hc
+  show (j.color, j.depth) = (i.color, i.depth)
+  rw [hc.2.2.2.1, hc.2.2.1]
+
+/-- `next_frame` on `afterInfo` (one byte of the first frame's data visible) runs out of input -/
+example : (step toyCfg idT afterInfo (.nextFrame 7)).2 = .err .eof "UnexpectedEof" := by decide +kernel
+
+/-- the retrying caller on the toy APNG, the input arriving as 1 + 1 + the rest: `next_frame` runs out of
+    input twice; and the same calls with everything visible -/
+example : (resumeRun toyCfg idT apng.length [1, 1, 1000] [.nextFrame 7, .nextFrameInfo, .nextFrame 7, .finish] afterInfo).map code =
+    [101, 4, 101, 5] := by decide +kernel
+example : ((run toyCfg idT (growTo afterInfo apng.length) [.nextFrame 7, .nextFrameInfo, .nextFrame 7, .finish]).2).map code =
+    [101, 4, 101, 5] := by decide +kernel
+
+/-- the theorem's instance for this run (its hypotheses hold): the same results, frames included -/
+example : resumeRun toyCfg idT apng.length [1, 1, 1000] [.nextFrame 7, .nextFrameInfo, .nextFrame 7, .finish] afterInfo =
+    (run toyCfg idT (growTo afterInfo apng.length) [.nextFrame 7, .nextFrameInfo, .nextFrame 7, .finish]).2 := by
+  have hR := (run_no_panic toyCfg idT_ok [.readInfo] _ (rinv_init idT {} (2 ^ 64 - 1) {} apng 100 (by decide +kernel))
+    ⟨fun h => (by cases h), by decide⟩).1
+  have hInv : Inv idT afterInfo := by
+    rcases hR with ⟨h, _⟩ | ⟨_, _, h⟩ | ⟨_, h, _⟩
+    · exact absurd h (by decide +kernel)
+    · exact h
+    · exact absurd h (by decide +kernel)
+  have hst : idT.Stable := by
+    intro i j f hc _
+    simp only [Info.core, Prod.mk.injEq] at hc
+    show (j.color, j.depth) = (i.color, i.depth)
+    rw [hc.2.2.2.1, hc.2.2.1]
+  exact C05_resume_complete toyCfg toy_inflateOk idT idT_ok hst afterInfo hInv (by decide +kernel) (by decide +kernel)
+    apng.length (by decide +kernel) _ (by decide) [1, 1, 1000] (by decide +kernel) (by decide +kernel)
+
+/-- from the `Decoder`: `read_info` on the first 100 bytes, then the retrying caller; and the run on the
+    whole input -/
+example : (step toyCfg idT (a0 100) .readInfo).2 = .header := by decide +kernel
+example : ((run toyCfg idT (growTo (a0 100) apng.length) [.readInfo, .nextFrame 7, .nextFrameInfo, .nextFrame 7, .finish]).2).map code =
+    1 :: (resumeRun toyCfg idT apng.length [1, 1, 1000] [.nextFrame 7, .nextFrameInfo, .nextFrame 7, .finish]
+      (step toyCfg idT (a0 100) .readInfo).1).map code := by decide +kernel
 
 end Png.C05
